@@ -593,6 +593,12 @@ def reference(line):
         if op == "instu":
             ms = round_ms(int(t[1]))
             return py_inst(ms) if MS_MIN <= ms <= MS_MAX else None
+        if op == "tieu":
+            return "ok" if MS_MIN <= int(t[1]) // 1000 and int(t[1]) // 1000 + 1 <= MS_MAX else None
+        if op == "rtp":
+            b = unhex(t[1])
+            m = _ISO_EXT.match(b) or _ISO_BAS.match(b)
+            return "ok" if m and 2 <= int(m.group(1)) <= 9998 and py_parse(b.split(b".")[0] + b"Z") is not None else None
         if op == "splitu":
             ms = round_ms(int(t[1]))
             return " ".join(str(v) for v in py_fields(ms)[:7]) if MS_MIN <= ms <= MS_MAX else None
@@ -798,6 +804,28 @@ def gen(rng, tier):
             batch.append("%s %d" % (rng.choice(["instu", "instu", "splitu", "fmtu 4", "fmtu 3"]), b * 1000 + dl))
         cases.append(batch)
         batch = []
+    # --- exactly half a millisecond (and within the resolution of the double of it): either neighbouring millisecond is an
+    #     acceptable rounding, but fields, formats and round trips must all show the same one (tieu: judged by the harness
+    #     with that tolerance); .9995 s is where the two roundings used to disagree by a whole second (repo f44eb78)
+    for _ in range(250 if big else 40):
+        ms = min(max(rand_ms(rng), MS_MIN + 86400000), MS_MAX - 86400000)
+        sec = ms // 1000
+        batch = ["tieu %d" % (sec * 1000000 + 999500), "tieu %d" % ((sec + rng.randrange(1, 60)) * 1000000 + 999500),
+                 "tieu %d" % (sec * 1000000 + rng.randrange(1000) * 1000 + 500)]
+        for _ in range(9):
+            k = rng.choice([999, 999, 999, rng.randrange(1000)])
+            batch.append("tieu %d" % ((sec + rng.randrange(86400)) * 1000000 + k * 1000 + 500 + rng.choice([0, 0, 0, 1, -1, 7, -7, 30, -30, 55, -55])))
+        cases.append(batch)
+    # parse -> FULL -> parse on fractions around the tie, in every spelling (the property's own round trip clause)
+    for _ in range(250 if big else 40):
+        batch = []
+        for _ in range(12):
+            ms = min(max(rand_ms(rng), MS_MIN + 3 * 86400000), MS_MAX - 3 * 86400000)
+            fr = rng.choice([b"9995", b"9995", b"99950001", b"999500001", b"99949999", b"999499999", b"4995", b"0005", b"99951", b"9994", b"9996",
+                             b"%03d5" % rng.randrange(1000), rand_frac(rng), b"%03d4999" % rng.randrange(1000)])
+            z = rng.choice([b"Z", b"Z", b"", zone_text(rng, rng.choice([1, -1]), rng.randrange(24), rng.randrange(60), rng.randrange(3))])
+            batch.append("rtp " + hexs(iso_text(rng, ms, rng.random() < 0.6, True, fr, z)))
+        cases.append(batch)
     for k in (-719162, -1, 0, 1, 11016, 47482, 2932896):       # t = 86400 k - eps, eps = 0.0001 .. 0.0009 s
         cases.append(["instu %d" % (k * 86400 * 1000000 - e) for e in (100, 200, 300, 400, 600, 700, 800, 900) if not (abs(k) > 100000 and e in (400, 600))])
     # --- every zone offset -23:59..+23:59 (all styles in thorough, one random style each in quick)
@@ -927,7 +955,7 @@ def gen(rng, tier):
 
 
 def nontrivial(case):
-    return any(l.split()[0] in ("inst", "instu", "split", "splitu", "make", "rt", "fmt", "fmtu", "parsefmt") or (l.startswith("parse ") and len(l.split()[1]) >= 16) for l in case)
+    return any(l.split()[0] in ("inst", "instu", "tieu", "rtp", "split", "splitu", "make", "rt", "fmt", "fmtu", "parsefmt") or (l.startswith("parse ") and len(l.split()[1]) >= 16) for l in case)
 
 
 def _parse_class(b):
@@ -1151,8 +1179,8 @@ TRUSTED = ["tools/props/c19.py translate(): clang-14 JSON AST walker for yearFro
            "month_days, wd[], mn[], months (src/Date.cpp) into lean/Gen/DateGen.lean; unrecognised constructs are a TranslateError",
            "harness/c19.cpp incl. its Hinnant civil_from_days oracle; python3 datetime as second reference"]
 ASSUMPTIONS = ["IEEE-754 double steps abstracted by the model and exercised exhaustively by the scan: floor(t*(1/86400.0)) and floor(t/86400.0) are the integer day, "
-               "t + 0.0005 followed by the floors is the instant rounded to the nearest millisecond (model: roundMs on microseconds; exercised 100..900 us around every kind of field boundary and before every midnight, never exactly at the 500 us tie), the h/m/s extraction from the fractional day is the exact second of the day, int(1000*fract(t)+0.5)%1000 is the millisecond, "
-               "parseInt(frac)*pow(10,1-i) added to the instant is the fraction rounded to the nearest millisecond (ties within 0.06 ms are not generated: a double near year 9999 cannot resolve them)",
+               "floor(floor(t*1000+0.5)/1000) and floor(t*1000+0.5) mod 1000 are second and millisecond of the instant rounded to the nearest millisecond (model: roundMs on microseconds; exercised 1..999 us around every kind of field boundary and before every midnight; at the 500 us tie, which a double cannot place, either neighbour is accepted but all observables must agree - op tieu), t - floor(t/86400.0)*86400.0 is the exact second of the day, "
+               "parseInt(frac)*pow(10,1-i) added to the instant is the fraction rounded to the nearest millisecond (for the exact value of `parse` ties within 0.06 ms are not generated; the parse -> FULL -> parse round trip is exercised on them with that tolerance by op rtp: a double near year 9999 cannot resolve them)",
                "C int arithmetic of yearFromTime does not overflow for instants of years 1..9999 (|d| < 3.7e6); elsewhere int arithmetic wraps (modelled by wrap32)",
                "TZ=UTC in the harness: strings without zone designator and the format-driven parser use the local zone, whose offset is then 0",
                "vsnprintf(\"%04i\"/\"%02i\"/\"%03i\") prints zero-padded decimals; String::split() yields the maximal runs of non-space bytes (C03)",
@@ -1174,4 +1202,4 @@ LEVEL_NOTE = ("Not theorems (validated by K, the harness's days-from-civil oracl
               "theorems are stated for the extended format yyyy-mm-ddThh:mm:ss+-hh[:]mm. Not in the proof: the double arithmetic of Date (floor(t/86400), fractional-day h/m/s extraction, millisecond rounding, "
               "pow(10,1-i)) is abstracted to exact integer milliseconds and checked by the exhaustive scan; int overflow for years beyond +-5.8e6 "
               "(365*(y-1970)) is outside the model and not generated; local-time paths run with TZ=UTC. Trusted: Lean kernel, the clang-AST/regex "
-              "translator in tools/props/c19.py, harness/c19.cpp. Instants are modelled in microseconds with the rounding to the millisecond explicit (roundMs); ties at exactly 0.5 ms are not generated (a double near year 9999 resolves 30 us). Two defects found and repaired: Date(str, fmt) read past the end of str (repo 2de0295); within 0.5 ms before midnight splitUTC/toString took the date from the unrounded and the time from the rounded instant (repo 4c81461).")
+              "translator in tools/props/c19.py, harness/c19.cpp. Instants are modelled in microseconds with the rounding to the millisecond explicit (roundMs); at exactly 0.5 ms either neighbouring millisecond is accepted, but consistently in all observables (op tieu; a double near year 9999 resolves 30 us). Three defects found and repaired: Date(str, fmt) read past the end of str (repo 2de0295); seconds and milliseconds were rounded separately, one second off at .9995 s (repo f44eb78); within 0.5 ms before midnight splitUTC/toString took the date from the unrounded and the time from the rounded instant (repo 4c81461).")
